@@ -349,6 +349,11 @@ def parse_template(path, seen=None):
                         if not mm:
                             raise SystemExit('bad rewrite directive: ' + l2)
                         fn['rewrites'].append(dict(frm=mm.group(1).replace('\\"', '"'), to=mm.group(2).replace('\\"', '"'), optional=bool(mm.group(3))))
+                    elif kind == 'rewrite_block':
+                        mm = re.match(r'"((?:[^"\\]|\\.)*)"\s*=>\s*"((?:[^"\\]|\\.)*)"\s*(\?)?', rest)
+                        if not mm:
+                            raise SystemExit('bad rewrite_block directive: ' + l2)
+                        fn['rewrites'].append(dict(frm=mm.group(1).replace('\\"', '"'), to=mm.group(2).replace('\\"', '"'), optional=bool(mm.group(3)), call=True, block=True))
                     elif kind == 'rewrite_call':
                         mm = re.match(r'"((?:[^"\\]|\\.)*)"\s*=>\s*"((?:[^"\\]|\\.)*)"\s*(\?)?', rest)
                         if not mm:
@@ -426,6 +431,16 @@ def extract_source(fn):
         body = rest[toks[0][3]:toks[c][2]]
         meta['kind'] = 'block'
         meta['sha256'] = hashlib.sha256(body.encode()).hexdigest()[:16]
+    if 'from' in fn['opts']:
+        # statement-suffix lifting: the body from the anchor snippet to the end of the function; the statements before it
+        # are not verified (their results are parameters of the lifted function)
+        pos = rsx.find_snippet(body, fn['opts']['from'])
+        if pos is None:
+            raise LostAnchor('%s: suffix anchor not found: %r' % (fn['id'], fn['opts']['from']))
+        meta['kind'] = 'suffix'
+        meta['dropped_prefix_chars'] = pos[0]
+        body = body[pos[0]:]
+        meta['sha256'] = hashlib.sha256(body.encode()).hexdigest()[:16]
     if 'arm' in fn['opts']:
         scr, pat = fn['opts']['arm'].split('=>', 1)
         arm, mt = rsx.find_arm(body, scr.strip(), pat.strip())
@@ -502,7 +517,7 @@ def apply_rewrites(fn, body, meta, truncate=True):
             n = 0
             if m:
                 depth = 0
-                j = m.start() + body[m.start():m.end()].index('(')
+                j = (m.start() + body[m.start():m.end()].rindex('{')) if rw.get('block') else (m.start() + body[m.start():m.end()].index('('))
                 toks = rsx.tokenize(body[j:])
                 end = None
                 for k, t, a, b in toks:
